@@ -118,6 +118,7 @@ void FeatureChecker::visitAssignment(expression_t& ass)
             supported_methods.symbolic = false;
         break;
     case Constants::COMMA:
+    case Constants::INLINE_IF:  // b ? (x = 1.5) : (x = 2)
         for (size_t i = 0; i < ass.get_size(); ++i)
             visitAssignment(ass.get(i));
         break;
